@@ -8,14 +8,17 @@ export OMPI_ALLOW_RUN_AS_ROOT=1 OMPI_ALLOW_RUN_AS_ROOT_CONFIRM=1
 cd "$WT" || exit 2
 git diff -- src include > /tmp/confirm-$ID.diff
 [ -s /tmp/confirm-$ID.diff ] || { echo "NOT-CONFIRMED $ID: no change applied in worktree"; exit 1; }
-cmake --build _build > /tmp/confirm-$ID.build 2>&1 || { echo "NOT-CONFIRMED $ID: build with change fails"; exit 1; }
+cmake --build _build -j8 > /tmp/confirm-$ID.build 2>&1 || { echo "NOT-CONFIRMED $ID: build with change fails"; exit 1; }
+for extra in _build_cplx _build_asan; do [ -d "$extra" ] && [ -f "$extra/build.ninja" ] && cmake --build $extra -j8 >> /tmp/confirm-$ID.build 2>&1; done
 NPASS=$(cd _build && ctest -j8 --timeout 900 2>&1 | grep -c "Passed")
 ( cd _deliver && bash ./build_and_run.sh ) > /tmp/confirm-$ID.with 2>&1; RC_WITH=$?
 git stash -q
-cmake --build _build >> /tmp/confirm-$ID.build 2>&1
+cmake --build _build -j8 >> /tmp/confirm-$ID.build 2>&1
+for extra in _build_cplx _build_asan; do [ -d "$extra" ] && [ -f "$extra/build.ninja" ] && cmake --build $extra -j8 >> /tmp/confirm-$ID.build 2>&1; done
 ( cd _deliver && bash ./build_and_run.sh ) > /tmp/confirm-$ID.without 2>&1; RC_WITHOUT=$?
 git stash pop -q
-cmake --build _build >> /tmp/confirm-$ID.build 2>&1
+cmake --build _build -j8 >> /tmp/confirm-$ID.build 2>&1
+for extra in _build_cplx _build_asan; do [ -d "$extra" ] && [ -f "$extra/build.ninja" ] && cmake --build $extra -j8 >> /tmp/confirm-$ID.build 2>&1; done
 echo "seed=$ID tests_passed_with_change=$NPASS demo_rc_with=$RC_WITH demo_rc_without=$RC_WITHOUT"
 if [ "$NPASS" = 20 ] && [ "$RC_WITH" != 0 ] && [ "$RC_WITHOUT" = 0 ]; then
   D=/verif/seeded/$ID; mkdir -p "$D"
